@@ -629,6 +629,8 @@ fn write_evidence(d: &Driver, path: &Path, violations: i64, replays: &[Value], k
             "simulated_time": format!("none - the code under test reads no clock; logical events: {} runs, {} hash-order decisions", a.evaluations, a.decisions_total),
             "cpu_seconds_in_runs": a.micros_total as f64 / 1e6,
             "slowest_run_ms": a.micros_max as f64 / 1e3,
+            "slowest_run_phase_ms": a.run_micros_max as f64 / 1e3,
+            "run_phase_budget_s": run_budget_secs(),
             "perturbations_injected": {
                 "counts": a.perturb,
                 "steered_runs_that_deviated_from_natural": a.steered_effective,
